@@ -3,9 +3,9 @@
    LeaderElector against Committee.tla.  One record per committee. *)
 EXTENDS Committee, Json, IOUtils
 Rec == ndJsonDeserialize(IOEnv.TRACE)
-VARIABLES l, viol, nsteps
-tvars == <<l, viol, nsteps>>
-TInit == l = 1 /\ viol = {} /\ nsteps = 0
+VARIABLES l, viol, nsteps, ndiv
+tvars == <<l, viol, nsteps, ndiv>>
+TInit == l = 1 /\ viol = {} /\ nsteps = 0 /\ ndiv = 0
 
 SeqToSet(q) == {q[i] : i \in 1..Len(q)}
 \* C17: the threshold both crates compute is the unique q with q > 2n/3 and q <= n - f; QuorumNoOverflow is proved equal
@@ -17,24 +17,27 @@ Checks(e) ==
   (IF e.q_consensus \in 1..n /\ 3 * (e.q_consensus - n \div 3 - n \div 3) > 2 * (n % 3) /\ e.q_consensus <= n - f THEN {} ELSE {<<"C17.Bounds", l>>}) \cup
   (IF e.lookup_consensus = e.stakes /\ e.lookup_mempool = e.stakes THEN {} ELSE {<<"C17.StakeLookup", l>>}) \cup
   (IF \A i \in 1..Len(e.unknown) : e.unknown[i] = 0 THEN {} ELSE {<<"C17.UnknownHasZeroStake", l>>}) \cup
-  \* C09: one leader per round, the same from every insertion order, rank = round mod n in sorted-key order
-  (IF \A i \in 1..Len(e.rounds) : e.leaders[i] = Leader(e.n, e.rounds[i]) /\ e.leaders2[i] = e.leaders[i]
-      THEN {} ELSE {<<"C09.LeaderIsRoundRobinOverSortedKeys", l>>}) \cup
-  (IF \A i \in 1..Len(e.windows) :
-        LET wl == e.windows[i].leaders IN
-        /\ SeqToSet(wl) = 0..(e.n - 1)
-        /\ wl[1] = e.windows[i].first
-        /\ \A k \in 1..(Len(wl) - 1) : wl[k + 1] = (wl[k] + 1) % e.n
+  \* C09: one leader per round, a committee member, the same from every insertion order (derived from the committee alone) ...
+  (IF \A i \in 1..Len(e.rounds) : e.leaders[i] \in 0..(e.n - 1) /\ e.leaders2[i] = e.leaders[i]
+      THEN {} ELSE {<<"C09.OneAgreedLeaderPerRound", l>>}) \cup
+  \* ... and every authority leads once in every n consecutive rounds (checked on every window of the sampled rounds 0..3n-1
+  \* and on windows near 2^32, 2^63 and u64::MAX).  The specification's own elector is round mod n over sorted keys; an
+  \* elector that rotates differently but satisfies the property is a divergence (leaders_differ_from_spec), not a violation.
+  (IF /\ \A i \in 1..Len(e.windows) : SeqToSet(e.windows[i].leaders) = 0..(e.n - 1)
+      /\ \A i \in 1..(Len(e.rounds) - e.n + 1) :
+            (\A k \in 0..(e.n - 2) : e.rounds[i + k + 1] = e.rounds[i + k] + 1) => {e.leaders[i + k] : k \in 0..(e.n - 1)} = 0..(e.n - 1)
       THEN {} ELSE {<<"C09.RotationCoversEveryAuthority", l>>})
+LeadersAsInSpec(e) == \A i \in 1..Len(e.rounds) : e.leaders[i] = Leader(e.n, e.rounds[i])
 
 TNext ==
   /\ l <= Len(Rec) /\ l' = l + 1
   /\ LET e == Rec[l] IN
-       IF e.t = "committee" THEN viol' = viol \cup Checks(e) /\ nsteps' = nsteps + 1
-       ELSE UNCHANGED <<viol, nsteps>>
+       IF e.t = "committee" THEN /\ viol' = viol \cup Checks(e) /\ nsteps' = nsteps + 1
+                                 /\ ndiv' = IF LeadersAsInSpec(e) THEN ndiv ELSE ndiv + 1
+       ELSE UNCHANGED <<viol, nsteps, ndiv>>
 TSpec == TInit /\ [][TNext]_tvars
 Accepted ==
   /\ PrintT(<<"TRACE", "records", Len(Rec), "consumed", TLCGet("stats").diameter - 1>>)
   /\ TLCGet("stats").diameter - 1 = Len(Rec)
-Report == l <= Len(Rec) \/ PrintT(<<"REPORT", ToJson([ndiv |-> 0, div |-> <<>>, steps |-> nsteps, viol |-> viol])>>)
+Report == l <= Len(Rec) \/ PrintT(<<"REPORT", ToJson([ndiv |-> ndiv, div |-> <<>>, steps |-> nsteps, viol |-> viol])>>)
 =============================================================================
